@@ -1,6 +1,7 @@
 """Shared pieces for the schema properties (C16, C17)."""
 from __future__ import annotations
 
+from lib import purity
 from lib.framework import Timeout, exc_code
 
 KINDS = ["object_class", "attribute_type", "dit_content_rule"]
@@ -88,11 +89,35 @@ def canon_dict_order(l):
 def parse_impl(kind, text):
     """-> [0, list form] | [1, code]"""
     try:
-        o = cls_of(kind).from_string(text)
+        # parsed twice, the first result scrambled in between (lib/purity.py)
+        return [0, purity.twice(lambda: cls_of(kind).from_string(text), lambda o: to_list(kind, from_obj(kind, o)))]
+    except purity.Impure as e:
+        return [1, "impure: " + str(e)]
     except Timeout:
         raise
     except BaseException as e:  # noqa: BLE001
         if isinstance(e, (KeyboardInterrupt, SystemExit)):
             raise
         return [1, exc_code(e)]
-    return [0, to_list(kind, from_obj(kind, o))]
+
+
+def render_impl(kind, v):
+    """str() of the description with value v.  Half of the time (chosen by the value) the object is first built with
+    its list and dict fields empty, rendered once, and then completed IN PLACE to v - the way an application builds a
+    definition incrementally: the text must be that of the value the object has when str() is called."""
+    o = to_obj(kind, v)
+    lists = [f for f in ("names", "super_types", "must", "may", "aux", "never") if isinstance(getattr(o, f, None), list)]
+    if (len(v["oid"]) + len(v["names"]) + len(v["extensions"])) % 2 == 0:
+        full = {f: list(getattr(o, f)) for f in lists}
+        ext = dict(o.extensions)
+        for f in lists:
+            del getattr(o, f)[:]
+        o.extensions.clear()
+        try:
+            str(o)
+        except Exception:  # noqa: BLE001
+            pass
+        for f in lists:
+            getattr(o, f).extend(full[f])
+        o.extensions.update(ext)
+    return str(o)
